@@ -132,6 +132,31 @@ def slice_hyps(hyps, goal):
     return chosen
 
 
+def division_facts(terms):
+    """defining ground facts of the py_floordiv / ceil_div applications that occur in the terms"""
+    from .ops import FDIV
+
+    out = []
+    seen = set()
+    stack = list(terms)
+    while stack:
+        x = stack.pop()
+        i = x.get_id()
+        if i in seen:
+            continue
+        seen.add(i)
+        if z3.is_app(x):
+            nm = x.decl().name()
+            if x.decl().kind() == z3.Z3_OP_UNINTERPRETED and x.num_args() == 2 and nm in ("py_floordiv", "ceil_div"):
+                a, b = x.arg(0), x.arg(1)
+                if nm == "py_floordiv":
+                    out.append(z3.Implies(b > 0, z3.And(b * x <= a, a < b * x + b)))
+                else:
+                    out.append(z3.Implies(b > 0, z3.And(b * (x - 1) < a, a <= b * x)))
+            stack.extend(x.children())
+    return out
+
+
 def model_to_dict(m, limit=60):
     out = {}
     for d in m.decls()[: limit * 4]:
@@ -324,8 +349,31 @@ class Session:
         if isinstance(goal, bool):
             goal = z3.BoolVal(goal)
         if sliced:
-            hyps = slice_hyps(list(hyps), goal)
+            extra = division_facts([goal] + [h for h in hyps if not _has_quantifier(h)][-400:])
+            hyps = slice_hyps(list(hyps) + extra, goal)
         verdict, backend, dt, model, smt2 = self._solve(list(hyps), z3.Not(goal), strings=strings)
+        if sliced and verdict != "unsat":
+            from .core import _int_apps, _nonlinear, nia_portfolio
+
+            if any(_nonlinear(h) for h in list(hyps) + [goal]):
+                # non-linear integer side conditions: purified problem, fresh z3 process (see core.nia_portfolio)
+                subst = {}
+                for f in list(hyps) + [goal]:
+                    _int_apps(f, subst)
+                pairs = [(t_, z3.Int(f"pur!{i}") if t_.sort() == z3.IntSort() else z3.Bool(f"purb!{i}"))
+                         for i, t_ in enumerate(subst.values())]
+                prob = [z3.substitute(h, *pairs) if pairs else h for h in hyps]
+                prob.append(z3.Not(z3.substitute(goal, *pairs) if pairs else goal))
+                t1 = time.time()
+                r = nia_portfolio(prob, self.query_timeout_ms)
+                dt += time.time() - t1
+                self.by_backend.setdefault("z3-nia", {"queries": 0, "seconds": 0.0})
+                self.by_backend["z3-nia"]["queries"] += 1
+                self.by_backend["z3-nia"]["seconds"] += time.time() - t1
+                if r == z3.unsat:
+                    verdict, backend, model = "unsat", "z3-nia", None
+                elif verdict == "sat":
+                    verdict = "unknown"  # the sliced ground problem is weaker than the full one: its models prove nothing
         ob.backend, ob.seconds = backend, dt
         if detail:
             ob.detail = detail
